@@ -414,6 +414,38 @@ def rule_R17(body: str, log, where):
     return body
 
 
+def rule_R18(body: str, log, where):
+    """`let PAT(ref x) = EXPR else {`  ->  `let x__t = EXPR; let PAT(x) = &x__t else {`  (Verus has no `ref` patterns; binding by
+    reference to a temporary that lives to the end of the block is what `ref` on a temporary does)"""
+    for _ in range(8):
+        mask = mask_rust(body)
+        m = re.search(r"\blet\s+([A-Za-z_][\w:]*)\(\s*ref\s+(\w+)\s*\)\s*=\s*", mask)
+        if not m:
+            break
+        # expression up to ` else {` at depth 0
+        k, depth = m.end(), 0
+        e = None
+        while k < len(mask):
+            ch = mask[k]
+            if ch in "([{":
+                depth += 1
+            elif ch in ")]}":
+                depth -= 1
+            elif depth == 0 and re.match(r"\belse\b", mask[k:k + 5]):
+                e = k
+                break
+            elif ch == ";" and depth == 0:
+                break
+            k += 1
+        if e is None:
+            break
+        pat, name = m.group(1), m.group(2)
+        expr = body[m.end():e].strip()
+        body = body[:m.start()] + f"let {name}__t = {expr}; let {pat}({name}) = &{name}__t " + body[e:]
+        log.append({"rule": "R18", "where": where, "before": f"let {pat}(ref {name}) = .. else", "after": f"let {name}__t = ..; let {pat}({name}) = &{name}__t else"})
+    return body
+
+
 def apply_rewrite(body, rule, frm, to, allocc, log, where):
     """exact-text rewrite. A missing anchor is NOT fatal: the rule is skipped and logged (`missed`), the real text
     goes to Verus unrewritten and either verifies, fails (violation) or is rejected by the front end (undecided).
@@ -1049,6 +1081,8 @@ def generate(unit, template_path, canary=False, extra_fns=()):
                 newsig += " " + wh.replace("\n", " ")
             # --- body rewrites
             body = rule_R4(body, g.rewrites, where)
+            if re.search(r"\(\s*ref\s+\w+\s*\)\s*=", mask_rust(body)):
+                body = rule_R18(body, g.rewrites, where)
             if re.search(r"\b(?:Some|Ok|Err)\(\s*&\s*\w+\s*\)\s*=>", mask_rust(body)):
                 body = rule_R17(body, g.rewrites, where)
             mm_ = re.findall(r"(?<=[(,])\s*mut\s+(\w+)\s*:", newsig)
